@@ -1,4 +1,11 @@
-from contracts import C02_rt
+"""C02 - error rate counts the edits of some minimum-cost alignment; MER loss."""
+from contracts import C02_rt, C02_vc
+from vf.pyvc import api
+
 CHECKERS = dict(C02_rt.CHECKERS)
+
+
 def run(ctx):
+    api.run_vcs(ctx, C02_vc.vcs(ctx), {"C02.S.edits_of_min_cost_alignment": "real error_rate/prefix_error_rates source: result within [fewest, most] edits of minimum-cost alignments; = unit Levenshtein for equal costs; norm and empty-reference convention; padding"},
+                bounded="shapes R,H in 0..%d (N=2 when R+H<=1 else 1), flag grid; ALL token values, eos values, positive real cost triples, padding values" % (2 if ctx.quick else 3))
     C02_rt.run_bounded(ctx)
